@@ -59,11 +59,20 @@ def connected(d):
     return len({find(a) for a in range(n)}) == 1
 
 
+class StopShard(Exception):
+    """a hang was observed and reported: the rest of this shard is not explored (every further disconnected diagram
+    would cost the full budget again)"""
+
+
 def nf(d, left):
+    """normal_form with a 30 s budget (a diagram of this size takes well under a millisecond)"""
     try:
-        return ('ok', monoidal.Diagram.normal_form(d, left=left))
+        with common.time_limit(30):
+            return ('ok', monoidal.Diagram.normal_form(d, left=left))
     except NotImplementedError:
         return ('notimpl', None)
+    except common.Hang:
+        return ('hang', None)
 
 
 def check(rep, d):
@@ -74,6 +83,11 @@ def check(rep, d):
     for left in (False, True):
         tag = 'left' if left else 'right'
         res = nf(d, left)
+        if res[0] == 'hang':
+            rep.fail('C06:normal_form.terminates', 'normal_form(left=%r) neither returned nor raised NotImplementedError '
+                     'within 30 s (%s diagram); the rest of this shard was not explored'
+                     % (left, 'connected' if conn else 'disconnected'), r)
+            raise StopShard()
         if res[0] == 'notimpl':
             rep.count('notimplemented')
             if conn:
@@ -121,6 +135,14 @@ def check(rep, d):
 
 
 def run(tier, seed=0, shard=(0, 1)):
+    rep_box = []
+    try:
+        return _run(tier, seed, shard, rep_box)
+    except StopShard:
+        return rep_box[0].result()
+
+
+def _run(tier, seed, shard, rep_box):
     max_boxes = 3 if tier == 'quick' else 4
     x, y = monoidal.Ty('x'), monoidal.Ty('y')
     boxes = common.signature(('x',), arities=((0, 0), (0, 1), (1, 0), (1, 1), (1, 2), (2, 1), (0, 2), (2, 0)))
@@ -129,7 +151,9 @@ def run(tier, seed=0, shard=(0, 1)):
     rep = Report({'max_boxes': max_boxes, 'max_width': 4, 'boxes': [repr(b) for b in boxes],
                   'class': 'BFS under the real adjacent interchange, both flags, <= 400 members',
                   'canonicity': 'normal form compared on <= 12 members of the class, left and right',
-                  'frames': 'state on 2-3 wires >> 2 (thorough 3) boxes among unit, counit, endo, copy, merge at every offset >> effect'})
+                  'frames': 'state on 2-3 wires >> 2 (thorough 3) boxes among unit, counit, endo, copy, merge at every offset >> effect',
+                  'disconnected': '4 diagrams with pending interchanges x 3 scalar groups x 4 placements; 30 s budget per normal_form call'})
+    rep_box.append(rep)
     for idx, d in enumerate(common.gen_diagrams(doms, boxes, max_boxes)):
         if idx % shard[1] != shard[0] or len(d) < 2:
             continue
@@ -152,4 +176,31 @@ def run(tier, seed=0, shard=(0, 1)):
                 continue
             b = Box('b', d.cod, Ty())
             check(rep, a >> d >> b)
+    # disconnected diagrams with real normalisation work besides their floating scalars: the trace is eventually
+    # periodic but need not come back to the input; non-termination must be reported as NotImplementedError
+    s0, s1 = Box('s0', Ty(), Ty()), Box('s1', Ty(), Ty())
+    f0, f1, g2 = Box('f0', x, y), Box('f1', x, x), Box('g2', x @ x, x)
+    work = [monoidal.Id(x) @ f1 >> f0 @ monoidal.Id(x), f1 @ monoidal.Id(x) >> monoidal.Id(x) @ f1,
+            monoidal.Id(x) @ f1 >> f1 @ monoidal.Id(x) >> g2, f1 @ f1 @ f1]
+    idx = 0
+    for w in work:
+        for scal in (s0 @ s1, s0 >> s1, s0 @ s1 @ s0):
+            for d in (w >> scal @ monoidal.Id(w.cod), scal @ monoidal.Id(w.dom) >> w, w >> monoidal.Id(w.cod) @ scal,
+                      w[:1] >> scal @ monoidal.Id(w[:1].cod) >> w[1:]):
+                idx += 1
+                if idx % shard[1] != shard[0]:
+                    continue
+                r = repr(d)
+                rep.case(r)
+                for left in (False, True):
+                    res = nf(d, left)
+                    rep.count('disconnected')
+                    if res[0] == 'hang':
+                        rep.fail('C06:normal_form.terminates', 'normal_form(left=%r) of a disconnected diagram neither '
+                                 'returned nor raised NotImplementedError within 30 s' % left, r)
+                        raise StopShard()
+                    elif res[0] == 'ok':
+                        again = nf(res[1], left)
+                        if again[0] != 'ok' or again[1] != res[1]:
+                            rep.fail('C06:nf.idempotent', 'normal form of a disconnected diagram is not a fixed point', r)
     return rep.result()
